@@ -14,7 +14,8 @@ const MaxFilters = 12
 
 func (s *Sim) buildFilter(spec *FilterSpec, rels []relPair) Filterer {
 	var f Filterer
-	if spec.Ad < 0 {
+	if spec.Ad < 0 || s.Flags.ForceUnsafe {
+		// (C14 twin B: typed filters and queries are replaced by UnsafeFilter / UnsafeQuery)
 		f = NewUnsafeFilterAd(s.W, s.idFn(), spec.Ts)
 	} else {
 		f = NewFilterer(s.W, spec.Ad)
@@ -36,7 +37,7 @@ func (s *Sim) buildFilter(spec *FilterSpec, rels []relPair) Filterer {
 		}
 		tuple := append(append([]int{}, spec.Ts...), spec.With...)
 		style := RSIdx
-		if spec.Ad < 0 {
+		if spec.Ad < 0 || s.Flags.ForceUnsafe {
 			style = RSID
 		}
 		f.Relations(s.relations(tuple, tgt, order, style))
@@ -108,11 +109,11 @@ func (s *Sim) opRegister(op *Op, reg bool) {
 		return
 	}
 	fi := s.filters[abs(op.F)%len(s.filters)]
-	if !fi.A.CanRegister() || fi.Registered == reg {
+	if !fi.Typed() || fi.Registered == reg {
 		s.skip(op)
 		return
 	}
-	if !s.Flags.VirtualCache {
+	if !s.Flags.VirtualCache && fi.A.CanRegister() {
 		p, val := s.call(func() {
 			if reg {
 				fi.A.Register()
@@ -142,7 +143,7 @@ func (s *Sim) opRegister(op *Op, reg bool) {
 }
 
 // queryRels resolves per-query relation targets for a filter.
-func (s *Sim) queryRels(fi *FilterInst, qr []RelSpec, typed bool) ([]relPair, []ecs.Relation) {
+func (s *Sim) queryRels(fi *FilterInst, qr []RelSpec, fl Filterer) ([]relPair, []ecs.Relation) {
 	req := fi.Spec.Required()
 	var pairs []relPair
 	tgt := map[int]int{}
@@ -161,7 +162,7 @@ func (s *Sim) queryRels(fi *FilterInst, qr []RelSpec, typed bool) ([]relPair, []
 			continue
 		}
 		l := s.target(r.Tgt)
-		if !typed && r.Tgt <= -100 {
+		if !fi.Typed() && r.Tgt <= -100 {
 			// the ID-based API does not check per-query targets: a removed (possibly
 			// recycled) entity as target is allowed and must match nothing
 			if d := s.M.PickDead(-r.Tgt); d != nil {
@@ -177,7 +178,7 @@ func (s *Sim) queryRels(fi *FilterInst, qr []RelSpec, typed bool) ([]relPair, []
 		return nil, nil
 	}
 	style := RSIdx
-	if !typed {
+	if !fl.CanRegister() {
 		style = RSID
 	}
 	return pairs, s.relations(req, tgt, order, style)
@@ -221,7 +222,7 @@ func (s *Sim) opOpenQuery(op *Op) {
 		f = fi.B
 		w = 1
 	}
-	extra, qrels := s.queryRels(fi, op.QR, f.CanRegister())
+	extra, qrels := s.queryRels(fi, op.QR, f)
 	rels := append(append([]relPair{}, fi.Rels...), extra...)
 	if s.lockDepth >= 64 {
 		// 65th simultaneous query: must panic, the 64 stay usable (C07 lock.capacity).
@@ -238,7 +239,7 @@ func (s *Sim) opOpenQuery(op *Op) {
 		s.violate("C07", "lock.allows", "Query", true, "creating query number %d panicked: %v", s.lockDepth+1, val)
 		return
 	}
-	oq := &OpenQuery{F: fidx, W: w, Q: q, Rels: rels, Expect: map[int]bool{}, Visited: map[int]int{}}
+	oq := &OpenQuery{F: fidx, W: w, Q: q, Rels: rels, Expect: map[int]bool{}, Visited: map[int]int{}, Held: true}
 	for _, l := range s.M.Select(&fi.Spec, rels) {
 		oq.Expect[l] = true
 	}
@@ -262,6 +263,9 @@ func (s *Sim) stepQuery(oq *OpenQuery) bool {
 		oq.OnEntity = false
 		s.lockDepth--
 		s.C.Checks["query.exact"]++
+		if s.Flags.Observe && oq.Held {
+			s.firedLog = append(s.firedLog, fmt.Sprintf("query(f%d.%d)=%v", oq.F, oq.W, sortedCopy(oq.Order)))
+		}
 		if len(oq.Visited) != len(oq.Expect) {
 			var miss []int
 			for l := range oq.Expect {
@@ -496,17 +500,17 @@ func (s *Sim) runQuery(fi *FilterInst, fidx int, w int, rels []relPair, qrels []
 // opSweep runs every filter pair completely: model vs uncached (C03), cached vs uncached (C05).
 func (s *Sim) opSweep(op *Op) {
 	for fidx, fi := range s.filters {
-		extra, qrB := s.queryRels(fi, op.QR, fi.B.CanRegister())
+		extra, qrB := s.queryRels(fi, op.QR, fi.B)
 		rels := append(append([]relPair{}, fi.Rels...), extra...)
 		orderB, countB, ok := s.runQuery(fi, fidx, 1, rels, qrB, true)
 		if !ok || s.fatal {
 			return
 		}
-		if !fi.A.CanRegister() {
+		if !fi.Typed() {
 			s.tracef("%d Sweep f%d B=%v", s.OpIdx, fidx, orderB)
 			continue
 		}
-		_, qrA := s.queryRels(fi, op.QR, true)
+		_, qrA := s.queryRels(fi, op.QR, fi.A)
 		orderA, countA, ok := s.runQuery(fi, fidx, 0, rels, qrA, true)
 		if !ok || s.fatal {
 			return
@@ -567,12 +571,12 @@ func (s *Sim) opBatchUse(op *Op) {
 		return
 	}
 	fi := s.filters[abs(op.F)%len(s.filters)]
-	if !fi.A.CanRegister() {
+	if !fi.Typed() {
 		s.skip(op)
 		return
 	}
-	_, qrels := s.queryRels(fi, op.QR, true)
-	if len(qrels) == 0 {
+	_, qrels := s.queryRels(fi, op.QR, fi.A)
+	if len(qrels) == 0 || !fi.A.CanRegister() {
 		s.skip(op)
 		return
 	}
